@@ -133,6 +133,10 @@ def declare_constraint(b, c, st=None):
     elif rel == 'eq': expr = mx(b, c['lhs'], st) == mx(b, c['rhs'], st)
     elif rel == 'box': expr = mx(b, c['lo'], st) <= (mx(b, c['lhs'], st) <= mx(b, c['hi'], st))
     elif rel == 'vle': expr = ca.vertcat(*[mx(b, e, st) for e in c['lhs']]) <= ca.vertcat(*[mx(b, e, st) for e in c['rhs']])
+    elif rel == 'vbox':
+        lo = ca.vertcat(*[-ca.inf if e['op'] == 'inf' else mx(b, e, st) for e in c['lo']])
+        hi = ca.vertcat(*[ca.inf if e['op'] == 'inf' else mx(b, e, st) for e in c['hi']])
+        expr = lo <= (ca.vertcat(*[mx(b, e, st) for e in c['lhs']]) <= hi)
     else: raise ValueError(rel)
     kw = dict(include_first=bool(c['incF']), include_last=bool(c['incL']), meta=meta)
     if c['grid'] == 'integrator': kw['grid'] = 'integrator'
